@@ -16,7 +16,8 @@ from typing import Any, Dict, List, Optional, Tuple
 
 from engine import steploop
 from engine.runner import Ctx
-from engine.tlc import MachineryError, cover_behaviours, mktemp, require_clean, run_tlc, simulate_behaviours, validate_batch
+from engine.tlc import (MachineryError, mktemp, parse_dot, require_clean, run_tlc, simulate_behaviours, transition_cover,
+                        validate_batch)
 from engine.wskit import BLoop, ClientSession_, ServerSession, enable_eager
 
 PEER_CODE = 4001
@@ -203,11 +204,15 @@ class WsExec:
             if not task.done() and t in self.cur:
                 self.rec("blocked", t=t, k=self.cur[t])
         exc = self.ws.exception()
-        ctxs = [c for c in self.loop.exc_contexts]
+        # reports made at garbage-collection time belong to whatever object happened to be freed
+        # (possibly of an earlier execution): not an observable of this execution
+        gc_family = ("Unclosed", "Task exception was never retrieved", "Future exception was never retrieved",
+                     "Task was destroyed")
+        ctxs = [c for c in self.loop.exc_contexts if not str(c.get("message", "")).startswith(gc_family)]
         self.rec("quiesce", info=type(exc).__name__ if exc is not None else "", n=len(ctxs))
         self.exc_messages = [str(c.get("message")) + ":" + repr(c.get("exception")) for c in ctxs]
         return {"cfg": {"side": self.side, "closeTimeout": o["close_timeout"]}, "src": "", "events": self.events,
-                "opts": dict(o)}
+                "opts": dict(o), "excs": self.exc_messages[:3]}
 
     def teardown(self) -> None:
         for task in self.tasks.values():
@@ -224,6 +229,35 @@ class WsExec:
 
 
 # ---------------------------------------------------------------- spec -> code
+_re_edge = re.compile(r'^(-?\d+) -> (-?\d+) \[label="((?:[^"\\]|\\.)*)"')
+
+
+def cover_behaviours(module: str, cfg: str, *, timeout: float = 600, workers: int = 8) -> Tuple[List[List[Tuple[str, dict]]], Any]:
+    """engine.tlc.cover_behaviours with edge labels that may contain quoted strings (Step("R"))."""
+    import shutil
+
+    d = mktemp("dot")
+    try:
+        dot = os.path.join(d, "graph.dot")
+        res = run_tlc(module, cfg, workers=workers, timeout=timeout, dump_dot=dot, deadlock=False)
+        require_clean(res, f"dump {module}")
+        if not os.path.exists(dot):
+            raise MachineryError(f"TLC wrote no state graph for {module}")
+        nodes, _edges, inits = parse_dot(dot)
+        edges = []
+        for ln in open(dot):
+            m = _re_edge.match(ln)
+            if m:
+                edges.append((m.group(1), m.group(2), m.group(3).replace('\\"', '"')))
+        behs = []
+        for p in transition_cover(nodes, edges, inits):
+            if p:
+                behs.append([("Init", nodes[p[0][0]])] + [(lab, nodes[dst]) for (_s, dst, lab) in p])
+        return behs, res
+    finally:
+        shutil.rmtree(d, ignore_errors=True)
+
+
 _act = re.compile(r"(\w+)(?:\((.*)\))?$")
 
 
@@ -423,6 +457,7 @@ CONSTANTS
   FixRearm = {fr}
   FixShortcut = {fs}
   FixCwCancel = {fc}
+  FixEofCode = {fe}
   MutNoFinally = {m1}
   MutNoWriterClosing = {m2}
 {invs}
@@ -446,7 +481,7 @@ def tla_set(xs: List[str]) -> str:
 def write_cfg(side: str, *, fixed: bool, invs: Optional[List[str]] = None, autoclose: bool = True, nrecv: int = 2,
               rt: int = 0, ct: int = 2, hb: int = 0, mt: int = 3, tasks: Tuple[str, ...] = ("R", "C"),
               kinds: Tuple[str, ...] = ("data", "close"), mp: int = 2, md: int = 1, mc: int = 1,
-              fr: Optional[bool] = None, fs: Optional[bool] = None, fc: Optional[bool] = None,
+              fr: Optional[bool] = None, fs: Optional[bool] = None, fc: Optional[bool] = None, fe: Optional[bool] = None,
               m1: bool = False, m2: bool = False) -> Tuple[str, dict]:
     b = lambda v: "TRUE" if v else "FALSE"  # noqa: E731
     if invs is None:
@@ -457,7 +492,7 @@ def write_cfg(side: str, *, fixed: bool, invs: Optional[List[str]] = None, autoc
         f.write(CFG.format(side=side, ac=b(autoclose), nrecv=nrecv, rt=rt, ct=ct, hb=hb, mt=mt, tasks=tla_set(list(tasks)),
                            kinds=tla_set(list(kinds)), mp=mp, md=md, mc=mc,
                            fr=b(fixed if fr is None else fr), fs=b(fixed if fs is None else fs),
-                           fc=b(fixed if fc is None else fc), m1=b(m1), m2=b(m2),
+                           fc=b(fixed if fc is None else fc), fe=b(fixed if fe is None else fe), m1=b(m1), m2=b(m2),
                            invs="\n".join("INVARIANT " + i for i in invs)))
     consts = {"side": side, "autoclose": autoclose, "nrecv": nrecv, "rt": rt, "ct": ct, "hb": hb}
     return p, consts
@@ -483,7 +518,8 @@ def judge(ctx: Ctx, traces: List[dict], label: str) -> None:
         if not v.ok:
             side = t["cfg"]["side"]
             ctx.violation(v.clause, f"{side}: {v.clause} after " + trace_signature(t, v.pos),
-                          {"trace": {"cfg": t["cfg"], "src": t["src"], "events": t["events"], "opts": t.get("opts")},
+                          {"trace": {"cfg": t["cfg"], "src": t["src"], "events": t["events"], "opts": t.get("opts"),
+                                     "excs": t.get("excs")},
                            "failed_at": v.pos, "label": label}, "trace")
     t0 = traces[0]
     ctx.sample({"src": t0["src"], "side": t0["cfg"]["side"],
@@ -493,13 +529,16 @@ def judge(ctx: Ctx, traces: List[dict], label: str) -> None:
 
 MODEL_DEVIATIONS = [
     # (side, invariant expected to fail on the code as found, clause reported, write_cfg overrides)
-    ("server", "CloseCodeRule", "CloseCode1000WithoutPeerClose", dict(fc=True)),
-    ("server", "ClosedClosesTransport", "CancelledCloseLeavesTransportOpen", dict(fs=True)),
+    ("server", "CloseCodeRule", "CloseCode1000WithoutPeerClose", dict(fc=True, fe=True)),
+    ("server", "ClosedClosesTransport", "CancelledCloseSkipsCleanup", dict(fs=True, fe=True)),
+    ("server", "CloseCodeRule", "CloseCodeOverwrittenAfterClose", dict(fs=True, fc=True)),
     ("client", "CloseBounded", "CloseTimeoutRearmedByTraffic", dict(mt=4, mp=3)),
 ]
 
 
 def run(ctx: Ctx) -> None:
+    from concurrent.futures import ThreadPoolExecutor
+
     ctx.rule = ("executions = transition-cover behaviours of WsSession (every edge of the small model's state graph, both "
                 "sides) + TLC-simulated behaviours of larger configurations replayed into a real WebSocketResponse "
                 "(through RequestHandler) / ClientWebSocketResponse (through ClientSession.ws_connect) against a scripted "
@@ -513,7 +552,9 @@ def run(ctx: Ctx) -> None:
     ]
     loop = steploop.new_loop()
     enable_eager(loop)
-    # ---- 1. models: ideal design (all invariants) and the code as found (named deviations excluded)
+    pool = ThreadPoolExecutor(max_workers=ctx.pick(10, 6))
+    # ---- 1. models (run concurrently with the replays below; results are registered in a fixed order)
+    model_jobs: List[Tuple[str, Any]] = []
     for side in ("server", "client"):
         for fixed in (True, False):
             for kw in ctx.pick([dict()],
@@ -521,50 +562,50 @@ def run(ctx: Ctx) -> None:
                                 dict(hb=2, mt=4, kinds=("data", "close", "pong"), mc=0),
                                 dict(autoclose=False, nrecv=3, kinds=("data", "close"), mp=2)]):
                 p, _ = write_cfg(side, fixed=fixed, **kw)
-                res = run_tlc("WsSession", p, workers=16, timeout=ctx.pick(600, 1500), deadlock=False)
                 name = f"WsSession[{side},{'ideal' if fixed else 'as-coded'}]({','.join(f'{k}={v}' for k, v in kw.items())})"
-                ctx.expect_model_ok(name, res)
-                ctx.log(f"{name}: {res.distinct} states, {res.wall_s:.0f}s, violated={res.violated}")
-    # the code as found against the full invariants: TLC exhibits each named deviation
+                model_jobs.append((name, pool.submit(run_tlc, "WsSession", p, workers=16, timeout=ctx.pick(900, 2400),
+                                                     deadlock=False)))
+    dev_jobs = []
     for side, inv, clause, kw in MODEL_DEVIATIONS:
         p, _ = write_cfg(side, fixed=False, invs=[inv], **kw)
-        res = run_tlc("WsSession", p, workers=4, timeout=300, deadlock=False)
-        require_clean(res, f"WsSession[{side}, as-coded, {inv}]")
-        ctx.add_model(f"WsSession[{side},as-coded,{inv} alone]", res, exhaustive=False)
-        if res.violated == inv:
-            ctx.violation(clause, f"{side}: model: " + " ".join(a for a, _ in res.trace[1:]),
-                          {"model_trace": [a for a, _ in res.trace]}, "model")
-        elif res.violated:
-            ctx.violation(f"model:{res.violated}", f"{side}: as-coded model", {"model_trace": [a for a, _ in res.trace]}, "model")
-    # ---- 2. spec -> code
-    traces: List[dict] = []
-    followed = 0
+        dev_jobs.append((side, inv, clause, pool.submit(run_tlc, "WsSession", p, workers=4, timeout=600, deadlock=False)))
+    # ---- 2. spec -> code: state-graph dumps and simulations are produced in the pool, replayed here
+    cover_jobs = []
+    sim_jobs = []
     for side in ("server", "client"):
-        p, consts = write_cfg(side, fixed=False, mp=ctx.pick(1, 2), mt=ctx.pick(2, 3))
-        behs, cres = cover_behaviours("WsSession", p, timeout=900, workers=ctx.pick(8, 16))
-        cap = ctx.pick(700, 100000)
-        if len(behs) > cap:
-            step = len(behs) / cap
-            behs = [behs[int(i * step)] for i in range(cap)]
-        ctx.extra.setdefault("transition_cover", {})[side] = {
-            "states": cres.distinct, "paths": len(behs), "edges_traversed": sum(len(b) - 1 for b in behs)}
-        for b in behs:
-            tr = replay_behaviour(ctx, loop, b, consts, "tlc-cover")
-            followed += tr["followed"]
-            traces.append(tr)
-        ctx.log(f"{side}: replayed {len(behs)} transition-cover paths ({cres.distinct} states)")
+        cover_cfgs = ctx.pick([dict(mp=1, mt=2, mc=0, md=1), dict(mp=1, mt=2, mc=1, md=0)],
+                              [dict(mp=1, mt=2, mc=1, md=1), dict(mp=2, mt=3, mc=0, md=1), dict(mp=1, mt=3, mc=1, md=0, rt=1)])
+        for ck in cover_cfgs:
+            p, consts = write_cfg(side, fixed=False, **ck)
+            cover_jobs.append((side, ck, consts, pool.submit(cover_behaviours, "WsSession", p, timeout=2400, workers=1)))
         for kw in (dict(tasks=("R", "C", "S"), kinds=("data", "close", "ping", "bad"), rt=1, mp=3, mt=4),
                    dict(hb=2, mt=5, kinds=("data", "close", "pong"), mp=3),
                    dict(autoclose=False, nrecv=3, mp=3, mt=4)):
             p, consts = write_cfg(side, fixed=False, **kw)
-            sims, _ = simulate_behaviours("WsSession", p, num=ctx.pick(60, 1500), depth=40, seed=ctx.seed, timeout=300)
-            for b in sims:
-                tr = replay_behaviour(ctx, loop, b, consts, "tlc-sim")
-                followed += tr["followed"]
-                traces.append(tr)
-        if len(traces) >= 2000:
+            sim_jobs.append((side, consts, pool.submit(simulate_behaviours, "WsSession", p, num=ctx.pick(60, 1500), depth=40,
+                                                       seed=ctx.seed, timeout=600)))
+    traces: List[dict] = []
+    followed = 0
+    for side, ck, consts, fut in cover_jobs:
+        behs, cres = fut.result()
+        ctx.expect_model_ok(f"WsSession[{side},as-coded,cover]({','.join(f'{k}={v}' for k, v in ck.items())})", cres)
+        ctx.extra.setdefault("transition_cover", []).append(
+            {"side": side, "cfg": ck, "states": cres.distinct, "paths": len(behs),
+             "edges_traversed": sum(len(b) - 1 for b in behs)})
+        for b in behs:
+            tr = replay_behaviour(ctx, loop, b, consts, "tlc-cover")
+            followed += tr["followed"]
+            traces.append(tr)
+        ctx.log(f"{side}: replayed {len(behs)} transition-cover paths of {ck} ({cres.distinct} states)")
+        if len(traces) >= 2500:
             judge(ctx, traces, "tlc")
             traces = []
+    for side, consts, fut in sim_jobs:
+        sims, _ = fut.result()
+        for b in sims:
+            tr = replay_behaviour(ctx, loop, b, consts, "tlc-sim")
+            followed += tr["followed"]
+            traces.append(tr)
     judge(ctx, traces, "tlc")
     ctx.extra["replays_followed_to_the_end"] = followed
     ctx.log(f"replays that followed the model to the end: {followed}; actions: {dict(ctx.action_cover)}; drift: {dict(ctx.drifts)}")
@@ -576,6 +617,26 @@ def run(ctx: Ctx) -> None:
             judge(ctx, batch, "random")
             batch = []
     judge(ctx, batch, "random")
+    # ---- 4. collect the model runs
+    for name, fut in model_jobs:
+        res = fut.result()
+        ctx.expect_model_ok(name, res)
+        ctx.log(f"{name}: {res.distinct} states, {res.wall_s:.0f}s, violated={res.violated}")
+    # the code as found against the full invariants: TLC exhibits each named deviation
+    for side, inv, clause, fut in dev_jobs:
+        res = fut.result()
+        require_clean(res, f"WsSession[{side}, as-coded, {inv}]")
+        ctx.add_model(f"WsSession[{side},as-coded,{inv} alone -> {clause}]", res, exhaustive=False)
+        if res.violated == inv:
+            ctx.violation(clause, f"{side}: model: " + " ".join(a for a, _ in res.trace[1:]),
+                          {"model_trace": [a for a, _ in res.trace]}, "model")
+        elif res.violated:
+            ctx.violation(f"model:{res.violated}", f"{side}: as-coded model", {"model_trace": [a for a, _ in res.trace]}, "model")
+    pool.shutdown()
+    import collections
+    by = collections.Counter((v.clause, v.source) for v in ctx.violations)
+    ctx.extra["violations_by_clause"] = {f"{c}/{s}": n for (c, s), n in sorted(by.items())}
+    ctx.log(f"violations by clause/source: {ctx.extra['violations_by_clause']}")
     ctx.evaluations = ctx.traces
     ctx.extra["replay_action_counts"] = dict(ctx.action_cover)
     loop.uninstall()
